@@ -57,7 +57,7 @@ func GetJsonDataType(t dsl.Type) JsonDataType {
 		case dsl.ComplexFloat32, dsl.ComplexFloat64:
 			return JsonArray
 		case dsl.Date, dsl.Time, dsl.DateTime:
-			return JsonNumber
+			return JsonString
 		default:
 			panic(fmt.Sprintf("unexpected primitive type %s", td))
 		}
